@@ -21,7 +21,7 @@ import (
 func init() { register("C18", runC18) }
 
 type c18Rec struct {
-	Day     string `json:"day"` // YYYYMMDD (UTC) of the write
+	Day     string `json:"day"` // YYYYMMDD (local zone of the scenario) of the write
 	Name    string `json:"name"`
 	Renamed string `json:"renamed"`
 	Hash    string `json:"hash"`
@@ -55,7 +55,8 @@ func (f *recvFile) GetHash() string    { return f.hash }
 func (f *recvFile) GetSize() int64     { return f.size }
 func (f *recvFile) TimeMs() int64      { return 7 }
 
-func dayOf(t time.Time) string { return t.UTC().Format("20060102") }
+// (calendar days are days of the LOCAL zone of the process under test, which varies per scenario)
+func dayOf(t time.Time) string { return t.Local().Format("20060102") }
 
 // daysTouched: every calendar day intersecting [a,b] (order-insensitive)
 func daysTouched(a, b time.Time) map[string]bool {
@@ -63,7 +64,7 @@ func daysTouched(a, b time.Time) map[string]bool {
 		a, b = b, a
 	}
 	out := map[string]bool{}
-	d := time.Date(a.UTC().Year(), a.UTC().Month(), a.UTC().Day(), 0, 0, 0, 0, time.UTC)
+	d := time.Date(a.Local().Year(), a.Local().Month(), a.Local().Day(), 0, 0, 0, 0, time.Local)
 	for !d.After(b) {
 		out[dayOf(d)] = true
 		d = d.Add(24 * time.Hour)
@@ -221,8 +222,8 @@ func c18Run(c *Ctx, idx int, rng *rand.Rand, sc *c18Scenario, dir string) {
 			time.Sleep(time.Duration(1+rng.Intn(30)) * time.Hour)
 		case 3:
 			// land just before/after midnight
-			now := time.Now().UTC()
-			mid := time.Date(now.Year(), now.Month(), now.Day(), 0, 0, 0, 0, time.UTC).Add(24 * time.Hour)
+			now := time.Now().Local()
+			mid := time.Date(now.Year(), now.Month(), now.Day(), 0, 0, 0, 0, time.Local).Add(24 * time.Hour)
 			time.Sleep(mid.Sub(now) + time.Duration(rng.Intn(3)-1)*time.Second)
 		default:
 			time.Sleep(time.Duration(rng.Intn(3000)) * time.Second)
